@@ -286,6 +286,14 @@ def run(tier):
             if tier == "quick":
                 rng.shuffle(bad)
                 bad = bad[:12]
+            elif len(bad) > 1500:
+                # every error-expected pair crashes its worker process on the unchanged tree (KF-INT-OVERFLOW-PANIC), at ~0.3 s per
+                # respawn: the thorough tier keeps the pairs next to the boundary and a seeded sample of the rest
+                near = [p_ for p_ in bad if min(abs(p_[0] - lo), abs(p_[0] - hi), abs(p_[1] - lo), abs(p_[1] - hi)) <= 2]
+                near_set = set(near)
+                rest = [p_ for p_ in bad if p_ not in near_set]
+                rng.shuffle(rest)
+                bad = near[:700] + rest[:800]
             expr = f"a {sym} b" if sym else "a / b, a % b"
             # bulk: one statement for all value-expected pairs, executed over a table (column path)
             for i in range(0, len(good), 4000):
